@@ -37,6 +37,9 @@ EXTRA_KINDS = {
     'opt_ellipsis': (['>>> mark("{id}")', '>>> print("abcdef")', 'a...f'], 'passed', True),
     'opt_ws': (['>>> mark("{id}")', '>>> print("a   b")', 'a b'], 'passed', True),
     'opt_ignore_want': (['>>> mark("{id}")', '>>> print("a")', 'zzz'], 'failed', True),
+    # doctests that look at the stream object behind sys.stdout
+    'stdout_encoding': (['>>> mark("{id}")', '>>> import sys', '>>> assert isinstance(sys.stdout.encoding, str)'], 'passed', True),
+    'stdout_fileno': (['>>> mark("{id}")', '>>> import sys', '>>> isinstance(sys.stdout.fileno(), int)', 'True'], 'passed', True),
 }
 
 
@@ -62,7 +65,8 @@ def required_cells(tier):
 
 
 def run_native(path, style, options, cwd, env):
-    cmd = [sys.executable, '-m', 'xdoctest', path, 'all', '--style=' + style, '--verbose=1', '--nocolor']
+    # default verbosity on both sides: the two commands as the property names them
+    cmd = [sys.executable, '-m', 'xdoctest', path, 'all', '--style=' + style, '--nocolor']
     if options:
         cmd.append('--options=' + options)
     p = subprocess.run(cmd, stdout=subprocess.PIPE, stderr=subprocess.STDOUT, text=True, cwd=cwd, env=env, timeout=300)
